@@ -14,7 +14,8 @@ def not_stack(rng, vocab, dirs):
             e, kind = walkgen.gen_not(rng, vocab, dirs)
             exprs.append(e)
             kinds.append(kind)
-        layers.append("n:" + "+".join(hx(e) for e in exprs))
+        # as an expression, or as compiled values (Glob / any of Globs)
+        layers.append(("n:" if rng.random() < 0.6 else "nc:") + "+".join(hx(e) for e in exprs))
         shape += "n" if k == 1 else "N"
     return ";".join(layers), shape, kinds
 
@@ -41,7 +42,7 @@ def run(rep, tier, seed, replay):
     npreq = []
     for c in cases:
         for layer in c.stack.split(";"):
-            es = layer[2:].split("+")
+            es = layer.split(":", 1)[1].split("+")
             npreq.append("NP %d %s" % (len(es), " ".join(es)))
     npreq = list(dict.fromkeys(npreq))
     for q, a, b in zip(npreq, h.ask(npreq), m.ask(npreq)):
@@ -53,7 +54,7 @@ def run(rep, tier, seed, replay):
     for k, (c, t) in enumerate(zip(cases, twins)):
         if not (c.head.startswith("root=") and t.head.startswith("root=")):
             continue
-        pats = [unhx(x) for layer in c.stack.split(";") for x in layer[2:].split("+")]
+        pats = [unhx(x) for layer in c.stack.split(";") for x in layer.split(":", 1)[1].split("+")]
         for it in walklib.ok_items(t.f.get("items")):
             rel = it[2].replace("@R", unhx(t.f.get("root_real", "-")))
             for p in pats:
@@ -106,5 +107,5 @@ def run(rep, tier, seed, replay):
         a = walklib.case_from(wit["walk"])
         walklib.run_cases([a], with_model=False)
         got = [x[0] for x in walklib.ok_items(a.f.get("items"))]
-        return wit["missing"] not in got, "walk of %r with the negation %r drops %r" % (a.expr or "the tree", [unhx(x) for l in a.stack.split(";") for x in l[2:].split("+")], wit["missing"])
+        return wit["missing"] not in got, "walk of %r with the negation %r drops %r" % (a.expr or "the tree", [unhx(x) for l in a.stack.split(";") for x in l.split(":", 1)[1].split("+")], wit["missing"])
     lib.replay_findings(rep, "C03", ask)
